@@ -166,6 +166,17 @@ def build():
     # many caches under ONE tag and ONE event (more than any batch size a registry might use)
     for i in range(18):
         fns.append(mk(len(fns), "g" if i % 2 == 0 else "a", "fifo", limit=2, tags=("mass",), events=("massev",)))
+    # plain caches (no limit) whose parameter is a destructuring pattern (C03: once per distinct tuple)
+    for fl in ["g", "a"]:
+        fns.append(mk(len(fns), fl, "fifo", sig=5))
+    # nested collections as arguments: [[j, 2], [3]] / [[j], [2, 3]] differ only in the grouping
+    for fl in ["g", "t", "a"]:
+        fns.append(mk(len(fns), fl, "lru", sig=10))
+    # recency-ordered caches large enough for an invalidation that removes more entries than it leaves (C13)
+    fns.append(mk(len(fns), "g", "lru", limit=5))
+    fns.append(mk(len(fns), "g", "arc", limit=5))
+    fns.append(mk(len(fns), "g", "tlru", limit=6))
+    fns.append(mk(len(fns), "a", "lru", limit=5))
     return fns
 
 
@@ -211,14 +222,16 @@ SIG_PARAMS = {
     7: "&self, r: Rest2, k: u32",
     8: "key: u32, result: u32, part: u32, cache: u32",
     9: "a: &str, b: String, k: u32",
+    10: "rows: Vec<Vec<u32>>",
 }
-SIG_X = {0: "k", 1: "a", 2: "k", 3: "0u32", 4: "a", 5: "c", 6: "b", 7: "k", 8: "part", 9: "k"}
+SIG_X = {0: "k", 1: "a", 2: "k", 3: "0u32", 4: "a", 5: "c", 6: "b", 7: "k", 8: "part", 9: "k", 10: "rows[0][0]"}
 # sig 6: x = 2j -> (1, 20 + j), x = 2j + 1 -> (12, j): "1" ++ "2j" = "12" ++ "j"
 SIG_ARGS = {0: "x", 1: "x, &format!(\"s{}\", x)", 2: "x / 2", 3: "", 4: "x, true, 'c', Some(x)", 5: "(x % 2, 7), x / 2",
             6: "if x % 2 == 0 { 1 } else { 12 }, if x % 2 == 0 { 20 + x / 2 } else { x / 2 }",
             7: "if x % 2 == 0 { Rest2::BC } else { Rest2::C }, x / 2",
             8: "1, 2, x, 3",
-            9: "&strs9(x).0, strs9(x).1, x / 2"}
+            9: "&strs9(x).0, strs9(x).1, x / 2",
+            10: "rows10(x)"}
 SIG_KEY = {0: 'format!("{:?}", x)',
            1: 'format!("{:?}|{:?}", x, format!("s{}", x).as_str())',
            2: 'format!("{:?}|{:?}", recv(x), x / 2)',
@@ -228,7 +241,8 @@ SIG_KEY = {0: 'format!("{:?}", x)',
            6: 'format!("{:?}|{:?}", if x % 2 == 0 { 1u32 } else { 12 }, if x % 2 == 0 { 20 + x / 2 } else { x / 2 })',
            7: 'format!("{:?}|{:?}|{:?}", half(x), if x % 2 == 0 { Rest2::BC } else { Rest2::C }, x / 2)',
            8: 'format!("{:?}|{:?}|{:?}|{:?}", 1u32, 2u32, x, 3u32)',
-           9: 'format!("{:?}|{:?}|{:?}", strs9(x).0.as_str(), strs9(x).1, x / 2)'}
+           9: 'format!("{:?}|{:?}|{:?}", strs9(x).0.as_str(), strs9(x).1, x / 2)',
+           10: 'format!("{:?}", rows10(x))'}
 BODY = ["body_u64", "body_string", "body_res_u64", "body_res_string", "body_slow", "body_weighted"]
 
 
@@ -252,6 +266,8 @@ def emit(fns, out):
     o.append("pub static HALF_A: Half = Half::A;")
     o.append("pub static HALF_AB: Half = Half::AB;")
     o.append("pub fn half(x: u32) -> &'static Half { if x % 2 == 0 { &HALF_A } else { &HALF_AB } }")
+    o.append("/// x = 2j -> [[j, 2], [3]], x = 2j + 1 -> [[j], [2, 3]]: the same flattened contents, another grouping")
+    o.append("pub fn rows10(x: u32) -> Vec<Vec<u32>> { if x % 2 == 0 { vec![vec![x / 2, 2], vec![3]] } else { vec![vec![x / 2], vec![2, 3]] } }")
     o.append("/// x = 2j -> (\"kj|m\", \"n\"), x = 2j + 1 -> (\"kj\", \"m|n\"): alike once the quotes are gone")
     o.append("pub fn strs9(x: u32) -> (String, String) { if x % 2 == 0 { (format!(\"k{}|m\", x / 2), \"n\".to_string()) } else { (format!(\"k{}\", x / 2), \"m|n\".to_string()) } }")
     for f in fns:
@@ -344,7 +360,7 @@ def emit(fns, out):
                 f["mem"][1] if f["mem"] is not None else "-",
                 fw[1] if fw else "-", fw[2] if fw else "-",
                 1 if RET_IS_RESULT[f["ret"]] else 0, 1 if f["cache_if"] else 0, 1 if f["inval_on"] else 0,
-                f["ret"] * 10 + f["sig"],
+                f["ret"] * 100 + f["sig"],
                 ",".join(f["tags"]) or "-", ",".join(f["events"]) or "-", ",".join(f["deps"]) or "-", f["gates"]))
 
 
